@@ -449,14 +449,20 @@ def run(ctx):
             # longer bodies (Solve runs to 8 trials): all schedules with at most 2 (3) preemptions
             btasks.append(dict(specs=specs_for(N, fs), ops=["c", "i", "i", "i", "S", "r"], bound=2 if not th else 3))
     if th:
-        btasks.append(dict(specs=specs_for(1, ("quad0", "mono", "const")), ops=["c", "i", "i"], bound=None))
+        btasks.append(dict(specs=specs_for(1, ("quad0", "mono", "const")), ops=["c", "i", "i"], bound=4))
     import itertools
     table = fresh_solos([(sp, t["ops"]) for t in btasks0 for sp in t["specs"]])
     n_solo += len(table)
     for t in btasks0:
         t["refs"] = [table[_key(sp, t["ops"])] for sp in t["specs"]]
-    allroots = [list(root) for root in itertools.product((0, 1), repeat=3)]
-    btasks = [dict(t, roots=allroots[i:i + 2]) for t in btasks0 for i in range(0, 8, 2)]
+    btasks = []
+    for t in btasks0:
+        # the schedule tree is partitioned by its first three choices (each choice indexes the enabled threads: all of
+        # them are enabled at the first three decisions because every body has more than three segments)
+        nth = len(t["specs"])
+        allroots = [list(root) for root in itertools.product(range(nth), repeat=3)]
+        per = max(2, len(allroots) // 4)
+        btasks += [dict(t, roots=allroots[i:i + per]) for i in range(0, len(allroots), per)]
     scheds = 0
     balt = 0
     complete = True
